@@ -670,6 +670,44 @@ def rule_stored_once(ctx, repo):
                         ok, why = False, "tracks %d and %d both hold the same %s object: editing one track's music edits the other's" % (i, j, both[0].cls.name if both[0].cls else "object")
         ctx.check(ok, R, "add_note.stored-once[%s]" % label, f.where(), "Composition.add_note(<%s>) with three tracks selected" % label, why)
 
+    # Track.from_chords: a chord that does not fit is cut at the bar line; every piece is an entry of its own -- its
+    # container, the list inside it and the Note objects in that list belong to that entry alone
+    ffc = repo.find_method(tci, "from_chords")
+    for label, pre, chords, dur in (("a breve over two bars", [], [["C", "E", "G"]], 0.5), ("a whole note after a quarter", [("A", 4)], [["D", "F#"]], 1),
+                                    ("a longa, then a rest, then a chord", [], [["C", "G"], None, ["E", "B"]], 0.25)):
+        def go2(it, pre=pre, chords=chords, dur=dur):
+            t = new(it, tci)
+            for n_, v_ in pre:
+                it.call_method(t, "add_notes", [n_, v_], {}, None)
+            it.call_method(t, "from_chords", [[list(c) if isinstance(c, list) else c for c in chords], dur], {}, None)
+            entries = []
+            for b in it.getattr(t, "bars"):
+                for e in it.getattr(b, "bar"):
+                    if isinstance(e[2], AObj):
+                        lst = e[2].attrs.get("notes", [])
+                        entries.append((e[2], lst, [n for n in lst if isinstance(n, AObj)]))
+            return entries
+        try:
+            ps = explore(lambda ch: Interp(repo, ch, max_depth=60, max_iter=5000), go2)
+        except CannotDecide as e:
+            raise AnalysisError("Track.from_chords(<%s>): %s" % (label, e))
+        ok, why = len(ps) == 1 and ps[0].kind == "return", "outcome %s" % [(p.kind, short(repr(p.value), 60)) for p in ps]
+        if ok:
+            es = ps[0].value
+            if len(es) < 2:
+                ok, why = False, "only %d sounding entries: the chord was not cut at a bar line" % len(es)
+            for i in range(len(es)):
+                for j in range(i + 1, len(es)):
+                    if not ok:
+                        break
+                    if es[i][0] is es[j][0]:
+                        ok, why = False, "entries %d and %d are the same NoteContainer object" % (i, j)
+                    elif es[i][1] is es[j][1]:
+                        ok, why = False, "entries %d and %d are two containers around the same list of notes: adding a note to one piece adds it to the other" % (i, j)
+                    elif any(a is b for a in es[i][2] for b in es[j][2]):
+                        ok, why = False, "entries %d and %d hold the same Note object: transposing the track moves that note twice" % (i, j)
+        ctx.check(ok, R, "from_chords.pieces[%s]" % label, ffc.where(), "Track.from_chords(<%s>)" % label, why)
+
 
 # ------------------------------------------------------------------------------ R-C15-6
 def _acc_split(st):
